@@ -115,6 +115,9 @@ def execute(w, st, ev, rng):
         if op == 'Find':
             o = K.get(p=p, q=q)
             return 'ok', ({o.id} if o is not None else set())
+        if op == 'FlushObj':
+            K[k].flush()
+            return 'ok', set()
         if op == 'Flush':
             flush()
             return 'ok', set()
@@ -132,7 +135,7 @@ def execute(w, st, ev, rng):
 
 
 WRITES = ('Create', 'SetPQ', 'Delete')
-FLUSHING = ('Flush', 'Get', 'Find', 'Commit')
+FLUSHING = ('Flush', 'FlushObj', 'Get', 'Find', 'Commit')
 
 
 def norm_ret(ret):
